@@ -411,6 +411,26 @@ def issue_tokens(st, record=True):
                     if tok not in tokens:
                         tokens.append(tok)
         issued[sess] = {"cookies": cookies, "tokens": tokens}
+    # a client that still holds an _xsrf cookie this server cannot use (left by a newer release, damaged, empty): the form
+    # page issues a token - together with whatever cookie the client holds afterwards that token must be accepted
+    for ver in (1, 2):
+        for stale in ("3|abcdef|future-format", "2|zzzzzzzz|00112233|1700000000", "2|0011", "", "2|"):
+            script = [SECRET_A] + ([MASKS_ISSUE[0]] if ver == 2 else [])
+            res = run_request(apps[ver], "GET", stale, [], "/issue", script)
+            st.ev()
+            case = {"issue": True, "session": "stale", "app_version": ver, "cookie": stale}
+            if res["status"] != 200:
+                st.violation("issue:stale-cookie:%s" % res["status"], "GET /issue with cookie %r: status %s" % (stale, res["status"]), case)
+                continue
+            tok = res["body"].decode("latin-1")
+            sc = [c.split(b";")[0].decode("latin-1") for c in res["set_cookie"]]
+            held = sc[-1][len("_xsrf="):] if sc and sc[-1].startswith("_xsrf=") else stale
+            r2 = run_request(apps[ver], "POST", held, [("X-XSRFToken", tok)], "/act")
+            st.ev()
+            if r2["status"] != 200 or not r2["ran"]:
+                st.violation("issue:token-for-stale-cookie-not-usable",
+                             "GET /issue with the unusable cookie %r issued token %r and Set-Cookie %r; POST with the cookie the "
+                             "client then holds (%r) and that token -> %s" % (stale, tok, sc, held, r2["status"]), case)
     return issued
 
 
@@ -567,7 +587,8 @@ class C24(Check):
                      "2|00000000|0g|1", "2|00000000|00|" + "9" * 5000, "02|00000000|00|1",
                      "2|00000000|00|1x", "20|00000000|00|1", "1|00000000|00|1", "999|x", "1000|x",
                      "0", "00", "0g", "g", "G0", "Aa", "aA", "2", "2|", "2||", "2|||", "2||||",
-                     "|", "00|", "\xff", "\xff\xff", "2|\xff|00|1", "%32%7C", "%", "%F", "%FF"]
+                     "|", "00|", "\xff", "\xff\xff", "2|\xff|00|1", "%32%7C", "%", "%F", "%FF",
+                     "2" + "0" * 4400 + "|00112233|00|1"]        # more digits than int() accepts by default
             for c in weird + [good_c]:
                 for t in weird + [good_t]:
                     yield (2, "misc:weird", "POST", c, [("form", t)], ("w",))
